@@ -91,3 +91,316 @@ Proof.
   apply float_group_good; [apply Hf; exact Hg|exact Hl|exact Hr].
 Qed.
 Print Assumptions splatply_cloud_roundtrip.
+
+(* ================================================================================================ *)
+(* The whole file: ply.SplatPly.Write followed by ply.ReadMesh, on C04's writer model and C08's      *)
+(* reader model.  The SplatPly table writes ... Scale, Rotation, Opacity, f_rest_*; the reader builds *)
+(* its vector readers in its own order (... Opacity, Scale, Rotation), so the attributes come back   *)
+(* in the reader's order: C04's "readers placed anywhere" theorem applies (read_mesh_pointcloud_placed). *)
+(* ================================================================================================ *)
+Import Coq.Strings.String.
+Open Scope list_scope.
+
+(* ---- any writer table, point cloud, binary little endian, readers placed in the reader's order ---- *)
+Theorem points_placed_any_table o m PL :
+  w_topo m = TPoint -> (0 < w_n m)%nat ->
+  Forall (group_good (w_n m)) (map (group_of m) (effective_writers o m)) ->
+  readers_placed true (rview o m) PL -> keys_ok [] (map fst PL) = true ->
+  exists file, PlyWrite.write o BinLE m = Ok file /\
+    read_mesh file = Ok {| m_topo := TPoint; m_idx := iota (w_n m); m_attrs := map gattr (map fst PL) |}.
+Proof.
+  intros Ht Hn Hg Hrp Hk.
+  assert (Hx : has_tex m = true -> tex_ok m).
+  { intros _ t Hin. unfold faces_of in Hin. rewrite Ht in Hin. destruct Hin. }
+  destruct (rview_same (w_n m) m (effective_writers o m) Hg) as (P & Gd & Wd).
+  destruct (closed_same BinLE m (rview o m) (map (group_of m) (effective_writers o m)) P Wd) as [Eh Eb].
+  exists {| pf_header := header_lines BinLE (header_elems (map (group_of m) (effective_writers o m)) m);
+            pf_body := closed_body BinLE (map (group_of m) (effective_writers o m)) m |}. split.
+  - unfold PlyWrite.write. rewrite write_body_closed; [reflexivity|exact Hg|discriminate| |exact Hx].
+    intros T. congruence.
+  - rewrite <- Eh, <- Eb. rewrite (read_mesh_pointcloud_placed BinLE (rview o m) PL m Ht Gd Hrp) by discriminate.
+    cbn [is_bin]. rewrite attrs_of_placed; [reflexivity|exact Hn| |exact Hk].
+    apply Forall_forall. intros g Hg'. apply in_map_iff in Hg'. destruct Hg' as (p & <- & Hp).
+    destruct Hrp as [_ Hpl]. rewrite Forall_forall in Hpl, Gd. destruct (Gd _ (placed_in _ _ _ (Hpl p Hp))) as (_ & L & _). exact L.
+Qed.
+
+(* ---- placements: groups with the cursor they start at ---- *)
+Fixpoint place (bin : bool) (gs : list rgroup) (c : nat) : list (rgroup * nat) :=
+  match gs with [] => [] | g :: r => (g, c) :: place bin r (gstep bin c g) end.
+
+Lemma breaders_place bin gs : forall c, breaders bin (place bin gs c) = layout bin gs c.
+Proof.
+  induction gs as [|g gs IH]; intros c; [reflexivity|].
+  cbn [place breaders map fst snd layout]. fold (breaders bin (place bin gs (gstep bin c g))). rewrite IH.
+  unfold built_at, gstep. destruct bin; reflexivity.
+Qed.
+Lemma map_fst_place bin gs : forall c, map fst (place bin gs c) = gs.
+Proof. induction gs as [|g gs IH]; intros c; [reflexivity|]. cbn [place map fst]. rewrite IH. reflexivity. Qed.
+
+Lemma place_placed bin gs : forall pre post, Forall (placed bin (pre ++ gs ++ post)) (place bin gs (gcur bin 0 pre)).
+Proof.
+  induction gs as [|g gs IH]; intros pre post; [constructor|]. cbn [place]. constructor.
+  - exists pre, (gs ++ post). cbn [fst snd]. split; reflexivity.
+  - specialize (IH (pre ++ [g]) post). rewrite <- app_assoc in IH. cbn [app] in IH.
+    rewrite gcur_app in IH. exact IH.
+Qed.
+
+(* the reader's order among the named groups *)
+Definition reader_order : list string := ["Position"; "Normal"; "FDC"; "Opacity"; "Scale"; "Rotation"]%string.
+Definition reorder {A} (key : A -> string) (l : list A) : list A :=
+  flat_map (fun a => filter (fun x => seqb (key x) a) l) reader_order.
+Lemma reorder_In {A} (key : A -> string) l x : In x (reorder key l) -> In x l.
+Proof.
+  unfold reorder. intros H. apply in_flat_map in H. destruct H as (a & _ & H). apply filter_In in H. apply H.
+Qed.
+Lemma map_filter_comm {A B} (f : A -> B) (p : B -> bool) l : map f (filter (fun x => p (f x)) l) = filter p (map f l).
+Proof. induction l as [|x l IH]; [reflexivity|]. cbn [filter map]. destruct (p (f x)); cbn [map]; rewrite IH; reflexivity. Qed.
+Lemma map_reorder {A B} (f : A -> B) (kb : B -> string) l :
+  map f (reorder (fun x => kb (f x)) l) = reorder kb (map f l).
+Proof.
+  unfold reorder. induction reader_order as [|a r IH]; [reflexivity|]. cbn [flat_map]. rewrite map_app, IH.
+  rewrite (map_filter_comm f (fun y => seqb (kb y) a)). reflexivity.
+Qed.
+
+(* ---- the SplatPly writer table as a C04 writer table ---- *)
+Definition arity (k : akind) : nat := match k with K1 => 1 | K3 => 3 | K4 => 4 end.
+Definition splat_writers : list pw := map (fun '(a, k, ps) => PW (arity k) a ps Float) splatply_table.
+Definition splat_opts : wopts := {| o_writers := splat_writers; o_unspec := false |}.   (* MeshWriter{Format, Properties} *)
+Definition named6 : list pw := firstn 6 splat_writers.
+Definition rest45 : list pw := skipn 6 splat_writers.
+Definition named_attrs : list string := map pw_attr named6.
+
+Lemma splat_writers_split : splat_writers = named6 ++ rest45.
+Proof. unfold named6, rest45. symmetry. apply firstn_skipn. Qed.
+
+Definition rest_okb (w : pw) : bool :=
+  match pw_names w with [n] => seqb n (pw_attr w) | _ => false end
+  && Nat.eqb (pw_dim w) 1 && sty_eqb (pw_ty w) Float && negb (is_default_writer w)
+  && negb (existsb (seqb (pw_attr w)) reserved_names) && negb (existsb (seqb (pw_attr w)) named_attrs).
+Lemma rest45_ok : forallb rest_okb rest45 = true.
+Proof. vm_compute. reflexivity. Qed.
+
+Definition scal (m : wmesh) (w : pw) : rgroup :=
+  {| rg_attr := pw_attr w; rg_names := [pw_attr w]; rg_ty := Float;
+     rg_rows := map (fun r => [nth 0 r 0%N]) (attr_rows m 1 (pw_attr w)) |}.
+
+Lemma rest_props w : In w rest45 ->
+  (forall m, rview_of m w = [scal m w]) /\ ~ In (pw_attr w) reserved_names /\ ~ In (pw_attr w) named_attrs /\ pw_ok w.
+Proof.
+  intros Hw. pose proof rest45_ok as H. rewrite forallb_forall in H. specialize (H w Hw). unfold rest_okb in H.
+  apply andb_prop in H. destruct H as [H Hnamed]. apply andb_prop in H. destruct H as [H Hres].
+  apply andb_prop in H. destruct H as [H Hdef]. apply andb_prop in H. destruct H as [H Hty].
+  apply andb_prop in H. destruct H as [Hn Hdim].
+  destruct w as [d a ns t]. cbn [pw_names pw_attr pw_dim pw_ty] in *.
+  destruct ns as [|n [|? ?]]; try discriminate. apply seqb_eq in Hn. subst n.
+  apply Nat.eqb_eq in Hdim. subst d. destruct t; try discriminate.
+  apply negb_true_iff in Hdef, Hres, Hnamed.
+  split; [|split; [|split]]; [| | |split; [reflexivity|left; reflexivity]].
+  - intros m. unfold rview_of. rewrite Hdef. reflexivity.
+  - intros Hin.
+    assert (existsb (seqb a) reserved_names = true) by (apply existsb_exists; exists a; split; [exact Hin|apply seqb_refl]). congruence.
+  - intros Hin.
+    assert (existsb (seqb a) named_attrs = true) by (apply existsb_exists; exists a; split; [exact Hin|apply seqb_refl]). congruence.
+Qed.
+
+(* ---- the six named groups: every subset, computed ---- *)
+Lemma named_bare (f : pw -> bool) :
+  let gs := map bare (filter f named6) in
+  build_groups true default_groups (vertex_props gs) = Ok (reorder b_attr (layout true gs 0)) /\
+  forallb (fun p => existsb (fun b => claims b (prop_name p)) (reorder b_attr (layout true gs 0))) (vertex_props gs) = true.
+Proof.
+  unfold named6, splat_writers. cbn [splatply_table app map firstn filter].
+  destruct (f _), (f _), (f _), (f _), (f _), (f _); split; vm_compute; reflexivity.
+Qed.
+
+Lemma named_default w : In w named6 -> is_default_writer w = true /\ incl (pw_names w) reserved_names /\ pw_ok w.
+Proof.
+  intros H. unfold named6, splat_writers in H. cbn [splatply_table app map firstn] in H.
+  repeat (destruct H as [<-|H]; [split; [reflexivity|split; [|split; [reflexivity|left; reflexivity]]];
+                                 intros x Hx; cbn in Hx; repeat (destruct Hx as [<-|Hx]; [vm_compute; tauto|]); destruct Hx|]).
+  destruct H.
+Qed.
+
+Lemma flat_map_singletons {A B} (f : A -> list B) (g : A -> B) l : (forall x, In x l -> f x = [g x]) -> flat_map f l = map g l.
+Proof.
+  induction l as [|x l IH]; intros H; [reflexivity|]. cbn [flat_map map]. rewrite (H x (or_introl eq_refl)).
+  rewrite IH by (intros y Hy; apply H; right; exact Hy). reflexivity.
+Qed.
+Lemma NoDup_map_filter {A B} (f : A -> B) (p : A -> bool) l : NoDup (map f l) -> NoDup (map f (filter p l)).
+Proof.
+  induction l as [|x l IH]; [auto|]. cbn [map filter]. intros H. inversion H as [|? ? Hn Hd]; subst.
+  destruct (p x); [|auto]. cbn [map]. constructor; [|auto]. intros Hin. apply Hn.
+  apply in_map_iff in Hin. destruct Hin as (y & E & Hy). apply filter_In in Hy. apply in_map_iff. exists y. tauto.
+Qed.
+Lemma reorder_In_iff {A} (key : A -> string) l x : In x l -> In (key x) reader_order -> In x (reorder key l).
+Proof.
+  intros Hx Hk. unfold reorder. apply in_flat_map. exists (key x). split; [exact Hk|].
+  apply filter_In. split; [exact Hx|apply seqb_refl].
+Qed.
+
+Definition pregs (m : wmesh) : list rgroup := map (group_of m) (filter (qualifies m) named6).
+Definition tail (m : wmesh) : list rgroup := map (scal m) (filter (qualifies m) rest45).
+
+Lemma rview_splat m : rview splat_opts m = pregs m ++ tail m.
+Proof.
+  unfold rview, effective_writers. cbn [o_unspec o_writers splat_opts]. rewrite splat_writers_split, filter_app, flat_map_app.
+  f_equal.
+  - apply flat_map_singletons. intros w Hw. apply filter_In in Hw. destruct Hw as [Hw _].
+    unfold rview_of. destruct (named_default w Hw) as [-> _]. reflexivity.
+  - apply flat_map_singletons. intros w Hw. apply filter_In in Hw. destruct Hw as [Hw _].
+    apply (rest_props w Hw).
+Qed.
+
+Lemma pregs_shape m : map shape_of (pregs m) = map shape_of (map bare (filter (qualifies m) named6)).
+Proof. unfold pregs. rewrite !map_map. reflexivity. Qed.
+
+Lemma tail_scalar m : Forall scalar_group (tail m).
+Proof. unfold tail. apply Forall_forall. intros g Hg. apply in_map_iff in Hg. destruct Hg as (w & <- & _). reflexivity. Qed.
+Lemma tail_attr_in m g : In g (tail m) -> exists w, In w rest45 /\ rg_attr g = pw_attr w.
+Proof.
+  unfold tail. intros Hg. apply in_map_iff in Hg. destruct Hg as (w & <- & Hw). apply filter_In in Hw. exists w. split; [apply Hw|reflexivity].
+Qed.
+Lemma tail_nodup m : NoDup (map rg_attr (tail m)).
+Proof.
+  unfold tail. rewrite map_map. cbn [scal rg_attr]. apply NoDup_map_filter.
+  apply nodupb_NoDup. vm_compute. reflexivity.
+Qed.
+Lemma tail_fresh m : Forall (fun g => ~ In (rg_attr g) reserved_names) (tail m).
+Proof.
+  apply Forall_forall. intros g Hg. destruct (tail_attr_in m g Hg) as (w & Hw & ->). apply (rest_props w Hw).
+Qed.
+Lemma pregs_reserved m g : In g (pregs m) -> incl (rg_names g) reserved_names /\ In (rg_attr g) named_attrs.
+Proof.
+  unfold pregs. intros H. apply in_map_iff in H. destruct H as (w & <- & Hw). apply filter_In in Hw. destruct Hw as [Hw _].
+  split; [apply (named_default w Hw)|]. cbn [group_of rg_attr]. unfold named_attrs. apply in_map. exact Hw.
+Qed.
+
+Definition PL_of (pg tl : list rgroup) : list (rgroup * nat) :=
+  reorder (fun p => rg_attr (fst p)) (place true pg 0) ++ place true tl (gcur true 0 pg).
+Definition splat_PL (m : wmesh) : list (rgroup * nat) := PL_of (pregs m) (tail m).
+
+Lemma PL_of_fst pg tl : map fst (PL_of pg tl) = reorder rg_attr pg ++ tl.
+Proof.
+  unfold PL_of. rewrite map_app, map_fst_place. f_equal.
+  rewrite (map_reorder (@fst rgroup nat) rg_attr). rewrite map_fst_place. reflexivity.
+Qed.
+
+Lemma breaders_PL_gen pg tl c :
+  breaders true (reorder (fun p => rg_attr (fst p)) (place true pg 0) ++ place true tl c)
+  = reorder b_attr (layout true pg 0) ++ layout true tl c.
+Proof.
+  unfold breaders. rewrite map_app. f_equal.
+  - rewrite (map_reorder (fun p : rgroup * nat => built_at true (fst p) (snd p)) b_attr). f_equal. apply breaders_place.
+  - apply breaders_place.
+Qed.
+
+(* named groups built in the reader's order, followed by fresh scalar groups in file order *)
+Lemma placed_gen pg tl :
+  build_groups true default_groups (vertex_props pg) = Ok (reorder b_attr (layout true pg 0)) ->
+  forallb (fun p => existsb (fun b => claims b (prop_name p)) (reorder b_attr (layout true pg 0))) (vertex_props pg) = true ->
+  Forall scalar_group tl -> NoDup (map rg_attr tl) -> Forall (fun g => ~ In (rg_attr g) reserved_names) tl ->
+  (forall g, In g pg -> incl (rg_names g) reserved_names) ->
+  readers_placed true (pg ++ tl) (PL_of pg tl).
+Proof.
+  intros B1 B2 Hs Hnd Hr Hpg. split.
+  - set (bs0 := reorder b_attr (layout true pg 0)) in *.
+    unfold build_readers. rewrite vertex_props_app.
+    rewrite build_groups_app_fresh by (apply default_groups_fresh, tail_props_fresh; assumption).
+    rewrite B1. cbn [rbind]. rewrite add_unclaimed_claimed by exact B2.
+    pose proof (add_unclaimed_tail true pg bs0 tl [] Hs Hnd) as A. cbn [app layout] in A.
+    rewrite app_nil_r in A. rewrite A.
+    + unfold PL_of. rewrite breaders_PL_gen. reflexivity.
+    + intros g Hg. rewrite Forall_forall in Hr. apply props_fresh_reserved; [apply Hr, Hg|exact Hpg].
+    + intros g Hg. rewrite Forall_forall in Hr.
+      destruct (existsb (fun b => claims b (rg_attr g)) bs0) eqn:E; [exfalso|reflexivity].
+      apply existsb_exists in E. destruct E as (b & Hb & Hc). apply reorder_In in Hb.
+      assert (E' : existsb (fun b => claims b (rg_attr g)) (layout true pg 0) = true) by (apply existsb_exists; exists b; auto).
+      rewrite claims_layout_reserved in E'; [discriminate|apply Hr, Hg|exact Hpg].
+  - unfold PL_of. apply Forall_app. split.
+    + apply Forall_forall. intros p Hp. apply reorder_In in Hp.
+      pose proof (place_placed true pg [] tl) as H. rewrite Forall_forall in H. apply (H p Hp).
+    + pose proof (place_placed true tl pg []) as H. rewrite app_nil_r in H. exact H.
+Qed.
+
+Lemma named_real m :
+  build_groups true default_groups (vertex_props (pregs m)) = Ok (reorder b_attr (layout true (pregs m) 0)) /\
+  forallb (fun p => existsb (fun b => claims b (prop_name p)) (reorder b_attr (layout true (pregs m) 0))) (vertex_props (pregs m)) = true.
+Proof.
+  pose proof (named_bare (qualifies m)) as B. cbv zeta in B.
+  rewrite (shape_props _ _ (pregs_shape m)), (shape_layout true _ _ 0%nat (pregs_shape m)). exact B.
+Qed.
+
+Lemma splat_readers_placed m : readers_placed true (rview splat_opts m) (splat_PL m).
+Proof.
+  rewrite rview_splat. destruct (named_real m) as [B1 B2]. unfold splat_PL.
+  apply placed_gen; [exact B1|exact B2|apply tail_scalar|apply tail_nodup|apply tail_fresh|].
+  intros g Hg. apply (pregs_reserved m g Hg).
+Qed.
+
+(* ---- attribute keys stay distinct ---- *)
+Lemma reorder_pregs m : reorder rg_attr (pregs m) = map (group_of m) (reorder pw_attr (filter (qualifies m) named6)).
+Proof. unfold pregs. symmetry. apply (map_reorder (group_of m) rg_attr). Qed.
+
+Lemma named_keys (f : pw -> bool) m :
+  keys_ok [] (map (group_of m) (reorder pw_attr (filter f named6))) = true /\
+  List.length (reorder pw_attr (filter f named6)) = List.length (filter f named6).
+Proof.
+  unfold named6, splat_writers. cbn [splatply_table app map firstn filter].
+  destruct (f _), (f _), (f _), (f _), (f _), (f _); split; reflexivity.
+Qed.
+
+Lemma splat_keys_ok m : keys_ok [] (map fst (splat_PL m)) = true.
+Proof.
+  unfold splat_PL. rewrite PL_of_fst, keys_ok_app. apply andb_true_intro. split.
+  - rewrite reorder_pregs. apply named_keys.
+  - cbn [app]. apply keys_ok_scalars; [apply tail_scalar|apply tail_nodup|].
+    intros g s Hg Hs. apply reorder_In in Hs. destruct (pregs_reserved m s Hs) as [_ Hn].
+    destruct (tail_attr_in m g Hg) as (w & Hw & Ea). destruct (rest_props w Hw) as (_ & _ & Hnot & _).
+    unfold gkey_eqb, gattr, key_eqb. rewrite seqb_neq; [apply andb_false_r|]. rewrite Ea. intros E. apply Hnot. rewrite E. exact Hn.
+Qed.
+
+(* ---- the whole file ---- *)
+(* a splat cloud as SplatPly.Write sees it: point topology, at least one vertex, every attribute one row of its
+   dimension of float32 words per vertex (C04's wf_attr) *)
+Definition splat_cloud_ok (m : wmesh) : Prop :=
+  w_topo m = TPoint /\ (0 < w_n m)%nat /\ forallb (wf_attr (w_n m)) (w_attrs m) = true.
+
+Lemma splat_writer_ok w : In w splat_writers -> pw_ok w.
+Proof.
+  rewrite splat_writers_split. intros H. apply in_app_or in H. destruct H as [H|H].
+  - apply (named_default w H).
+  - apply (rest_props w H).
+Qed.
+
+Theorem splatply_whole_file m : splat_cloud_ok m ->
+  exists file, PlyWrite.write splat_opts BinLE m = Ok file /\
+    read_mesh file = Ok {| m_topo := TPoint; m_idx := iota (w_n m);
+                           m_attrs := map gattr (reorder rg_attr (pregs m) ++ tail m) |}.
+Proof.
+  intros (Ht & Hn & Hwf).
+  destruct (points_placed_any_table splat_opts m (splat_PL m) Ht Hn) as (file & Hw & Hr).
+  - unfold effective_writers. cbn [o_unspec o_writers splat_opts].
+    apply Forall_forall. intros g Hg. apply in_map_iff in Hg. destruct Hg as (w & <- & Hw). apply filter_In in Hw. destruct Hw as [Hw Hq].
+    apply group_good_of; [|exact Hq|apply splat_writer_ok, Hw].
+    intros x Hx. rewrite forallb_forall in Hwf. apply Hwf, Hx.
+  - apply splat_readers_placed.
+  - apply splat_keys_ok.
+  - exists file. split; [exact Hw|]. rewrite Hr. unfold splat_PL. rewrite PL_of_fst. reflexivity.
+Qed.
+Print Assumptions splatply_whole_file.
+
+(* what comes back is what [expected]'s view of the written groups contains, in the reader's order *)
+Lemma named_in_order a : In a named_attrs -> In a reader_order.
+Proof. intros H. vm_compute in H. vm_compute. tauto. Qed.
+
+Theorem splat_attrs_same m : forall a,
+  In a (map gattr (reorder rg_attr (pregs m) ++ tail m)) <-> In a (map gattr (rview splat_opts m)).
+Proof.
+  intros a. rewrite rview_splat, !map_app, !in_app_iff, !in_map_iff. split; intros [(g & E & H)|H]; try (right; exact H); left; exists g; (split; [exact E|]).
+  - apply reorder_In in H. exact H.
+  - apply reorder_In_iff; [exact H|]. apply named_in_order. apply (pregs_reserved m g H).
+Qed.
+Lemma splat_attrs_count m : List.length (reorder rg_attr (pregs m) ++ tail m) = List.length (rview splat_opts m).
+Proof.
+  rewrite rview_splat, !app_length. f_equal. rewrite reorder_pregs. unfold pregs. rewrite !map_length. apply (named_keys (qualifies m) m).
+Qed.
